@@ -142,6 +142,14 @@ func (r *Run) errCheckedOpt(fn ast.Node, construct, tagA, tagB string, isA, isB 
 	// pendingCall: an A call event was just seen; the enclosing statement decides where the
 	// error goes. We resolve that syntactically from the parent statement of the call.
 	spec := &pathsim.Spec{InlineCalls: true}
+	spec.ErrAtom = func(obj types.Object) (int, bool) {
+		for i, e := range errObjs {
+			if e == obj && i < pathsim.MaxAtoms {
+				return i, true
+			}
+		}
+		return 0, false
+	}
 	spec.AtomDeps = map[int][]types.Object{}
 	spec.Atom = func(c *pathsim.Ctx, e ast.Expr) (int, bool, bool) {
 		x, notNil, ok := pathsim.IsNilCompare(c.Info, e)
@@ -162,9 +170,10 @@ func (r *Run) errCheckedOpt(fn ast.Node, construct, tagA, tagB string, isA, isB 
 	}
 	// pre-scan: where does each A call's error go?
 	type dest struct {
-		obj     types.Object
-		dropped bool
-		direct  bool // returned directly / passed on: treated as handled
+		obj       types.Object
+		dropped   bool
+		direct    bool // returned directly / passed on: treated as handled
+		viaHelper bool // the error reaches obj through the result of an extracted helper
 	}
 	dests := map[*ast.CallExpr]dest{}
 	prescan := func(c *pathsim.Ctx) {
@@ -229,6 +238,36 @@ func (r *Run) errCheckedOpt(fn ast.Node, construct, tagA, tagB string, isA, isB 
 					return true
 				}
 			case *ast.ReturnStmt:
+				// `return A()` hands the error to the caller. Inside an extracted helper (a new function
+				// with one call site) "the caller" is still this rule's function: the error arrives in
+				// the variable that receives the helper's error result there.
+				if sc := c.P.ScopeAt(call.Pos()); sc != nil && sc.Fn != nil && isNewHelper(c.P, sc.Fn) {
+					if hc, hparent := r.onlyCallSite(sc.Fn); hc != nil {
+						if as, ok := hparent.(*ast.AssignStmt); ok && len(as.Rhs) == 1 {
+							hsig, _ := sc.Fn.Obj.Type().(*types.Signature)
+							hidx := -1
+							if hsig != nil {
+								for i := 0; i < hsig.Results().Len(); i++ {
+									if isErrorType(hsig.Results().At(i).Type()) {
+										hidx = i
+									}
+								}
+							}
+							if hidx >= 0 && hidx < len(as.Lhs) {
+								if id, _ := as.Lhs[hidx].(*ast.Ident); id != nil && id.Name != "_" {
+									if o := prog.IdentObj(c.Info, id); o != nil {
+										i := objIndex(o)
+										if i < pathsim.MaxAtoms {
+											spec.AtomDeps[i] = []types.Object{o}
+										}
+										dests[call] = dest{obj: o, viaHelper: true}
+										return true
+									}
+								}
+							}
+						}
+					}
+				}
 				dests[call] = dest{direct: true}
 				return true
 			case *ast.ExprStmt:
@@ -267,6 +306,10 @@ func (r *Run) errCheckedOpt(fn ast.Node, construct, tagA, tagB string, isA, isB 
 					for _, rr := range ev.Rhs {
 						if call, ok := ast.Unparen(rr).(*ast.CallExpr); ok {
 							if _, ok := dests[call]; ok {
+								isFromA = true
+							}
+							// the assignment that receives the result of the helper which returned A's error
+							if fi := c.P.FuncInfoOf(c.P.CalleeFunc(c.Info, call)); fi != nil && isNewHelper(c.P, fi) {
 								isFromA = true
 							}
 						}
@@ -873,4 +916,29 @@ func (r *Run) guardedBy(g guardSpec) {
 	for _, v := range viols {
 		r.Fail(v.tag, v.pos, v.trce, "%s", v.msg)
 	}
+}
+
+// onlyCallSite returns the single static call of fi in non-test code together with its
+// parent node (nil when there is not exactly one).
+func (r *Run) onlyCallSite(fi *prog.FuncInfo) (*ast.CallExpr, ast.Node) {
+	var call *ast.CallExpr
+	var parent ast.Node
+	n := 0
+	for _, u := range r.P.Uses(fi.Obj) {
+		if prog.IsTestSupport(u.Pkg.PkgPath) {
+			continue
+		}
+		n++
+		path := r.P.PathTo(u.File, u.Ident.Pos(), u.Ident.End())
+		for k := len(path) - 1; k >= 1; k-- {
+			if c, ok := path[k].(*ast.CallExpr); ok {
+				call, parent = c, path[k-1]
+				break
+			}
+		}
+	}
+	if n != 1 {
+		return nil, nil
+	}
+	return call, parent
 }
